@@ -1,3 +1,354 @@
-(** C13 - placeholder until the collection is written. *)
-From SE Require Import Base.
-Example c13_placeholder : True. Proof. exact I. Qed.
+(** C13 - `ls` and `export` terminate with bounded resources on any input file.
+
+    In this development every Python loop is a Gallina function that is structurally
+    recursive, or recursive on an explicit [fuel : nat] and returning [OutOfFuel] when the
+    fuel runs out.  The C13 obligations are FUEL-SUFFICIENCY theorems: for EVERY input -
+    arbitrary bytes, arbitrary table words, arbitrary text; no well-formedness hypothesis - the
+    function, called with the fuel its caller gives it, never returns [OutOfFuel]; the fuel
+    is a closed expression LINEAR in the size of the input, so each theorem is an iteration
+    bound for the loop it models.  This file only collects them (property theorems only: the
+    proofs are in the cited files), grouped by layer, with the bound each one establishes.
+    What the collection does NOT cover is listed at the end: the claim is PARTIAL. *)
+From Coq Require String.
+Import String.StringSyntax.
+Delimit Scope string_scope with string.
+From SE Require Import Base Codecs Fat Cue Names Transcode Stream Info Roland Container AkaiImage
+     FatProofs AkaiChainProofs StreamProofs StreamRevProofs TranscodeProofs NamesProofs TerminationProofs.
+From SE Require Filters FiltersProofs Wav WavProofs.
+
+(** * A. Allocation tables (util/fat.py, akai/sat.py, roland/s7xx/fat.py) *)
+
+(** get_path: <= size + 1 steps for ANY link table (cycles, self links, links beyond the
+    table); the path returned has <= size sectors. (D1 fix: the loop counter is incremented.) *)
+Theorem get_path_total :
+  forall size links start, 0 <= size ->
+    get_path size links start <> OutOfFuel /\
+    (forall p, get_path size links start = Ok p ->
+       zlen p <= size /\ Forall (fun s => s < zlen links) p /\ exists t, p = start :: t) /\
+    (forall e, get_path size links start = Err e ->
+       e = RequestedInvalidSector \/ e = InvalidFatDefinition).
+Proof. exact get_path_total_lemma. Qed.
+Print Assumptions get_path_total.
+
+(** AKAI SAT decode: n outer rounds, each inner walk <= 2n + 2 steps, for any table of n
+    non-negative words; one link per entry (the accumulated list has n entries). *)
+Theorem akai_decode_total :
+  forall block, Forall (fun w => 0 <= w) block ->
+    akai_decode block <> OutOfFuel /\
+    (forall t, akai_decode block = Ok t -> length t = length block).
+Proof. exact akai_decode_total_lemma. Qed.
+Print Assumptions akai_decode_total.
+
+(** ... and it never raises either *)
+Theorem akai_decode_never_raises :
+  forall block, Forall (fun w => 0 <= w) block -> exists t, akai_decode block = Ok t.
+Proof. exact akai_decode_ok. Qed.
+Print Assumptions akai_decode_never_raises.
+
+(** Roland FAT decode: <= N outer rounds, each walk <= N + 2 steps (D2 fix: a walk longer
+    than the table is rejected); get_file: <= N + 1 steps. *)
+Theorem roland_decode_total : forall fat, roland_decode fat <> OutOfFuel.
+Proof. exact roland_decode_total_lemma. Qed.
+Print Assumptions roland_decode_total.
+Theorem roland_get_file_total :
+  forall N links index off, 0 <= N -> roland_get_file N links index off <> OutOfFuel.
+Proof. exact roland_get_file_total_lemma. Qed.
+Print Assumptions roland_get_file_total.
+
+(** * B. Byte-window views (util/stream.py, util/sector.py, util/fat.py, alcohol/mdf.py) *)
+
+(** SectorStream._read over ANY parent that itself terminates, any sector map, any position
+    and size: the "while remaining_size > sector_length" loop makes <= size / L rounds (fuel
+    size / L + 1), i.e. <= size / L + 2 sector reads.  Condition: the sector length is
+    positive (the code's constants 8192, 9216, 2048, 2352; see [sector_length_is_needed]). *)
+Theorem sector_read_total :
+  forall (St : Type) (p_seek : St -> Z -> res Z * St) (p_read : St -> Z -> res (list Z) * St)
+         L m s pos size,
+    (forall s a, fst (p_seek s a) <> OutOfFuel) -> (forall s n, fst (p_read s n) <> OutOfFuel) ->
+    0 < L ->
+    fst (sect_read St p_seek p_read L m s pos size) <> OutOfFuel.
+Proof. exact (@sect_read_fuel). Qed.
+Print Assumptions sector_read_total.
+
+(** seek of any view: structural in the nesting depth *)
+Theorem view_seek_total : forall v s off wh, fst (v_seek v s off wh) <> OutOfFuel.
+Proof. exact v_seek_fuel. Qed.
+Print Assumptions view_seek_total.
+
+(** read(n) of ANY view - whatever its declared sizes, offsets, sector maps, sample widths,
+    whatever the state it is in: depth x (n / L + 2) sector reads. *)
+Theorem view_read_total :
+  forall v content, sect_ok v -> forall s n, fst (v_read v content s n) <> OutOfFuel.
+Proof. exact v_read_fuel. Qed.
+Print Assumptions view_read_total.
+
+(** Every history of seek / tell / read(n) / read(-1) on ANY view of positive declared size
+    (well formed or NOT: the window may lie outside its parent, the chain may repeat sectors
+    or leave the parent, a reversed view may be misaligned): no operation runs out of fuel.
+    read(-1): every round that returns bytes advances the position by min(4096, size - pos),
+    so <= size / 4096 + 2 rounds. *)
+Theorem view_history_total :
+  forall k size sub content, sect_ok (V k size sub) -> 0 < size ->
+    forall ops s, 0 <= v_tell s -> ~ In OutFuel (fst (run (V k size sub) content s ops)).
+Proof. exact view_history_total_lemma. Qed.
+Print Assumptions view_history_total.
+
+(** On WELL-FORMED views (C08) read(-1) moreover returns exactly the rest of the content *)
+Theorem readall_refines_file :
+  forall k size sub content ops s,
+    wf (V k size sub) content -> good (V k size sub) s ->
+    fst (run (V k size sub) content s ops)
+    = ref_runA (logical (V k size sub) content) (v_tell s) ops.
+Proof. exact readall_refines_file_lemma. Qed.
+Print Assumptions readall_refines_file.
+Theorem readall_reads_rest :
+  forall k size sub content s n,
+    wf (V k size sub) content -> good (V k size sub) s -> n < 0 ->
+    let L := logical (V k size sub) content in
+    exists s', step (V k size sub) content s (ORead n) = (OutBytes (slice L (v_tell s) (zlen L)), s')
+               /\ good (V k size sub) s' /\ v_tell s' = zlen L.
+Proof. exact readall_step_lemma. Qed.
+Print Assumptions readall_reads_rest.
+
+(** The two conditions are needed.
+    - Sector length 0: the MODEL's loop spins; the code divides by the sector length first
+      (ZeroDivisionError) and never builds such a stream.  Not a hang of the code.
+    - Declared size <= 0 (an UNBOUNDED window: StreamWrapper clips only when size > 0).
+      (a) Forward windows: the real loop ends with the parent's data after |parent| / 4096 + 1
+      rounds, but the fuel [step] gives read(-1) is computed from the declared size, so the
+      MODEL runs out of fuel ([readall_unbounded_window_not_covered]): a defect of the model's
+      fuel formula, not of the code; no theorem covers read(-1) on such a window.
+      (b) The sample-REVERSED view of size <= 0 over an unbounded offset window: before fix
+      4e95fab read(-1) REALLY never ended (every read(4096) returned the same block again; the
+      real classes spun with growing memory - a finding of this check, reached from
+      roland/s7xx/sample_file.py with loop mode 5 or 6 and sustain end < start - 1 in a damaged
+      sample record: `export` hung).  After the fix the first round raises BadReadSize:
+      [reversed_unbounded_window_rejected] below. *)
+Theorem sector_length_is_needed :
+  fst (v_read (V (KSect 0 MPlain) 5 Base) [1; 2; 3; 4; 5] (init_state (V (KSect 0 MPlain) 5 Base) 0) 5) = OutOfFuel.
+Proof. exact sector_length_needed. Qed.
+Print Assumptions sector_length_is_needed.
+Theorem readall_unbounded_window_not_covered :
+  let v := V (KOff 0) (-8192) Base in
+  fst (step v (repeat 7 5000) (init_state v 0) (ORead (-1))) = OutFuel.
+Proof. exact readall_unbounded_window_fuel. Qed.
+Print Assumptions readall_unbounded_window_not_covered.
+
+(** the former hang: StreamReversed(StreamOffset(file, 0, 0), 0, 2), any content, any state -
+    read(-1) now ends in its first round with BadReadSize *)
+Theorem reversed_unbounded_window_rejected :
+  forall content pos ts0 sub_state fuel acc, 0 <= pos ->
+    fst (v_readall (S fuel) (V (KRev 2) 0 (V (KOff 0) 0 Base)) content (SV pos ts0 sub_state) 4096 acc)
+    = Err BadReadSize.
+Proof. exact spin_view_readall_ends. Qed.
+Print Assumptions reversed_unbounded_window_rejected.
+
+(** * C. Cue sheets (cuesheet.py) *)
+
+(** parse_cue_sheet on ANY text: each of the three loops (FILE entries, TRACK entries,
+    track properties) consumes at least one line per round net of the pushed-back line:
+    <= |lines| + 1 rounds per loop. *)
+Theorem cue_parse_total : forall lines, parse_cue_sheet lines <> OutOfFuel.
+Proof. exact cue_parse_total_lemma. Qed.
+Print Assumptions cue_parse_total.
+
+(** * D. AKAI images (akai/image.py, partition.py, volume.py, file_entry.py, sample.py) *)
+
+(** The partition scan never stops BECAUSE of fuel: every accepted header has a size word
+    > 0 (parse_partition rejects size <= 0) and advances the cursor by size x 8192 >= 8192,
+    so <= |img| / 8192 + 1 rounds, and as many partitions at most. *)
+Theorem partition_scan_total :
+  forall img f, (Z.to_nat (zlen img / SECTOR) < f)%nat ->
+    scan_partitions f img 0 = partitions img /\
+    (length (partitions img) <= S (Z.to_nat (zlen img / SECTOR)))%nat.
+Proof. exact partition_scan_total_lemma. Qed.
+Print Assumptions partition_scan_total.
+
+(** Remark (no fuel involved): the file-table loop [entries_loop] is structurally recursive on
+    n = |directory area| / 24, the volume table on its 100 entries, [keygroup_walk] on
+    number_of_keygroups; their bounds are those numbers. *)
+Theorem file_table_total : forall n pc sat table, entries_loop n pc sat table <> OutOfFuel.
+Proof. exact entries_loop_fuel. Qed.
+Print Assumptions file_table_total.
+
+(** `export` and `ls` (the tree both walk) of ANY image of bytes: no header parse is cut
+    short by fuel (so the scan does not end early for that reason), and neither composition
+    runs out of fuel: partition scan, SAT decode, chain resolution (<= 11386 + 1 steps per
+    chain), file tables, naming, transcoding. *)
+Theorem akai_image_total :
+  forall img, Forall (fun b => 0 <= b < 256) img ->
+    (forall o, parse_partition img o <> OutOfFuel) /\
+    akai_export img <> OutOfFuel /\ akai_listing img <> OutOfFuel.
+Proof. exact akai_image_total_lemma. Qed.
+Print Assumptions akai_image_total.
+Theorem akai_export_total : forall img, akai_export img <> OutOfFuel.
+Proof. exact akai_export_total_lemma. Qed.
+Print Assumptions akai_export_total.
+Theorem akai_listing_total : forall img, akai_listing img <> OutOfFuel.
+Proof. exact akai_listing_total_lemma. Qed.
+Print Assumptions akai_listing_total.
+
+(** * E. Names (structural.py) *)
+
+(** sanitize_names_general for ANY sibling list: the "while next_name in taken" loop makes
+    <= |taken| + 1 probes per name (taken grows by <= 1 per sibling: fuel
+    |taken| + 2 x siblings + 1), i.e. O(siblings^2) name comparisons per directory - the one
+    quadratic loop, quadratic in the number of SIBLINGS, not in the image size. *)
+Theorem sanitize_names_total : forall f elems, sanitize_names f elems <> OutOfFuel.
+Proof. exact sanitize_names_total_lemma. Qed.
+Print Assumptions sanitize_names_total.
+
+(** the two regex scans of make_safe_name / make_export_name: every round consumes >= 1
+    character, the fuel |name| + 1 never truncates the result *)
+Theorem name_scans_total :
+  (forall f1 f2 ok l, (length l <= f1)%nat -> (length l <= f2)%nat ->
+     replace_runs f1 ok l = replace_runs f2 ok l) /\
+  (forall f1 f2 pw l, (length l <= f1)%nat -> (length l <= f2)%nat ->
+     replace_invalid f1 pw l = replace_invalid f2 pw l).
+Proof. exact (conj replace_runs_total_lemma replace_invalid_total_lemma). Qed.
+Print Assumptions name_scans_total.
+
+(** * F. Transcoding (transcode.py) *)
+
+(** draining the transcoder: every round consumes a block of every stream or stops; fuel
+    total bytes + 2, for any streams, block size, widths, channel counts *)
+Theorem transcode_total : forall target ss dw dc, transcode target ss dw dc <> OutOfFuel.
+Proof. exact transcode_total_lemma. Qed.
+Print Assumptions transcode_total.
+(** the frame / sample splitter: any fuel >= |buffer| gives the same pieces *)
+Theorem pieces_total :
+  forall f1 f2 n l, (length l <= f1)%nat -> (length l <= f2)%nat -> pieces f1 n l = pieces f2 n l.
+Proof. exact pieces_total_lemma. Qed.
+Print Assumptions pieces_total.
+
+(** * G. WAV building (wav.py) - float primitives appear because the header computation
+    (pitch fraction) is modelled with binary64 *)
+Theorem build_wav_terminates :
+  forall d pcm,
+    Wav.build_wav d pcm <> OutOfFuel /\
+    forall e, Wav.build_wav d pcm = Err e ->
+      e = ConstructErr
+      \/ (Wav.requires_smpl d = true /\ Wav.smpl_chunk_data d = Err e /\ (e = ValueErr \/ e = OverflowErr)).
+Proof. exact WavProofs.build_wav_errors_lemma. Qed.
+Print Assumptions build_wav_terminates.
+
+(** * H. `ls` of a file (akai/program.py, keygroup.py, sample.py through info printing) *)
+
+(** KeygroupLinkConstruct: exactly number_of_keygroups (one byte: <= 255) records are decoded,
+    wherever the next-keygroup addresses point (backwards, to themselves, past the end). *)
+Theorem keygroup_chain_total :
+  forall n idx total file pos,
+    keygroup_walk n idx total file pos <> OutOfFuel /\
+    (forall ks, keygroup_walk n idx total file pos = Ok ks -> length ks = n).
+Proof. exact keygroup_walk_fuel. Qed.
+Print Assumptions keygroup_chain_total.
+Theorem program_keygroup_count :
+  forall file,
+    decode_program file <> OutOfFuel /\
+    (forall p, decode_program file = Ok p ->
+       length (p_keygroups p) = Z.to_nat (get (p_env p) (! "number_of_keygroups"))).
+Proof. exact decode_program_fuel. Qed.
+Print Assumptions program_keygroup_count.
+Theorem ls_file_total :
+  forall print_cents file_name safe_name type_name body,
+    ls_program print_cents file_name safe_name type_name body <> OutOfFuel /\
+    ls_sample print_cents file_name safe_name body <> OutOfFuel.
+Proof. exact ls_file_total_lemma. Qed.
+Print Assumptions ls_file_total.
+
+(** * I. Roland S-7xx (roland/s7xx) *)
+
+(** From FAT words to exported bytes: FAT decode, get_file, then read(-1) of the window over
+    the chained file (<= size / 4096 + 2 rounds of <= 4096 / L + 2 cluster reads each), for ANY
+    FAT words, image bytes, directory values and loop points such that the window size
+    2 x (end - start + 1) computed from the loop points is positive.  The traversal
+    volume -> performance -> patch -> partial -> sample ([roland_listing]) is a composition of
+    [map] / [filter] / [flat_map] over the fixed-size pointer lists (64 / 32 / 88 / 4 entries):
+    structural, no fuel. *)
+Theorem roland_sample_pcm_total :
+  forall L doff fat image entry top mode p,
+    0 < L -> 0 < Roland.w_size (get_params mode p) ->
+    roland_sample_pcm L doff fat image entry top mode p <> OutOfFuel.
+Proof. exact roland_sample_pcm_total_lemma. Qed.
+Print Assumptions roland_sample_pcm_total.
+(** the statement for ALL loop points; only the part above is proved *)
+Definition roland_sample_pcm_total_statement : Prop :=
+  forall L doff fat image entry top mode p,
+    0 < L -> roland_sample_pcm L doff fat image entry top mode p <> OutOfFuel.
+(** it is FALSE of the model as it stands, with field values the real record can hold
+    (witness: a truncated image; a chain whose head clusters lie beyond its end; start point
+    behind the sustain end, so that the declared window size is negative = unbounded window,
+    see B).  This is a defect of the MODEL's fuel formula for read(-1) (Stream.step computes it
+    from the declared size), not a hang of the code, whose loop ends with the parent's data
+    (forward mode 0).  With a REVERSE mode (5, 6) and such points the window is the reversed
+    unbounded view of [reversed_unbounded_window_rejected]: there the code itself never
+    terminated before fix 4e95fab (see B). *)
+Theorem roland_sample_pcm_total_statement_refuted : ~ roland_sample_pcm_total_statement.
+Proof. exact roland_sample_pcm_total_statement_refuted_lemma. Qed.
+Print Assumptions roland_sample_pcm_total_statement_refuted.
+
+(** * J. Containers and sample reversal: splitters whose fuel is the input length *)
+Theorem blocks_total :
+  forall fuel n l, (0 < n)%nat -> (length l <= fuel)%nat ->
+    concat (blocks fuel n l) = l /\ (length (blocks fuel n l) <= length l)%nat.
+Proof. exact blocks_total_lemma. Qed.
+Print Assumptions blocks_total.
+Theorem chunks_total :
+  forall fuel w l, (0 < w)%nat -> (length l <= fuel)%nat ->
+    concat (chunks fuel w l) = l /\ (length (chunks fuel w l) <= length l)%nat.
+Proof. exact chunks_total_lemma. Qed.
+Print Assumptions chunks_total.
+
+(** * K. De-emphasis filters (filters/*.pyx): structural - one kernel call per block, each
+    kernel a [map] / [fold] over the block (float primitives: the filters compute in binary64) *)
+Theorem filter_stream_total : forall blocks f, Filters.stream f blocks <> OutOfFuel.
+Proof. exact filter_stream_total_lemma. Qed.
+Print Assumptions filter_stream_total.
+
+(** * Non-vacuity *)
+(** a corrupted cue sheet (TRACK before FILE, unterminated FILE, junk) is parsed to an answer *)
+Example c13_example_cue :
+  parse_cue_sheet [ (! "  TRACK 01 AUDIO"); (! "FILE ""a.bin"" BINARY"); (! "junk"); (! "TRACK 1 AUDIO");
+                    (! "INDEX 01 00:00:00"); []; (! "FILE ""b.bin") ] <> OutOfFuel
+  /\ is_ok (parse_cue_sheet [ (! "FILE ""a.bin"" BINARY"); (! "TRACK 1 AUDIO"); (! "INDEX 01 00:02:00") ]) = true.
+Proof. split; [apply cue_parse_total|vm_compute; reflexivity]. Qed.
+(** an ILL-FORMED view of positive size (chain with a repeated and an out-of-range sector, window
+    larger than its parent): the hypotheses of [view_history_total] hold, and the history
+    answers with bytes / errors, never with the out-of-fuel output *)
+Definition c13_bad_view : view := V (KOff 2) 40 (V (KSect 4 (MChain [1; 1; 9])) 12 Base).
+Example c13_example_view :
+  sect_ok c13_bad_view /\
+  fst (run c13_bad_view (map Z.of_nat (seq 100 24)) (init_state c13_bad_view 0) [ORead 4; ORead (-1); OTell; ORead (-1)])
+  = [OutBytes [106; 107; 104; 105]; OutErr SectorReadError; OutPos 4; OutErr SectorReadError].
+Proof. split; [cbn; lia|vm_compute; reflexivity]. Qed.
+(** arbitrary bytes are an image with no partition; the scan stops at once *)
+Example c13_example_bytes :
+  Forall (fun b => 0 <= b < 256) (map (fun i => Z.of_nat i mod 256) (seq 0 300))
+  /\ akai_export (map (fun i => Z.of_nat i mod 256) (seq 0 300)) = Ok [].
+Proof.
+  split; [|vm_compute; reflexivity].
+  apply Forall_forall. intros b Hb. apply in_map_iff in Hb as (i & <- & _).
+  apply Z.mod_pos_bound. lia.
+Qed.
+
+(** * What these theorems do NOT cover (the claim is partial)
+    - CPU seconds and resident memory of the CPython process, of numpy and of `construct`:
+      no Gallina model exhibits them.  The theorems bound the NUMBER OF ITERATIONS of every
+      modelled loop (and with it the length of the lists the loops accumulate) by an
+      expression linear in the size of the input (quadratic in the number of siblings for
+      the name-collision loop); they are not composed into one step-count function for a
+      whole run.
+    - Unmodelled code: argparse, printing (InfoTable / InfoTree rendering is modelled in C20
+      as structural functions, the terminal output is not), os / file-system calls,
+      `construct`'s own parsing machinery, numpy kernels, the Cython filter binaries.
+    - read(-1) on a window whose declared size is <= 0 (unbounded window): forward windows are
+      not covered ([readall_unbounded_window_not_covered],
+      [roland_sample_pcm_total_statement_refuted]: the model's fuel formula is too small there);
+      the reversed one did not terminate at all before fix 4e95fab (a finding of this check, repaired in
+      /repo; now [reversed_unbounded_window_rejected]; reproducer in notes/C13.md).
+    - Roland and CDDA whole-image compositions have no image-level model (only the AKAI image
+      has one): their loops are covered function by function (A, B, C, I), not as a composed
+      `export`.
+    These are exercised only by the fault sweep of the check (harness/props/c13.py): random
+    bytes and targeted corruptions of AKAI / Roland / cue inputs, every `ls` and `export` run
+    under a CPU alarm and an address-space limit. *)
